@@ -3,15 +3,41 @@
 // Contracts for govc (contract-based deductive verification); comments only.
 package gpusharing
 
-//@ import constants "github.com/NVIDIA/KAI-scheduler/pkg/common/constants"
+// C19: "Anything the scheduler would treat as a GPU-sharing request is rejected by admission when
+// malformed or when GPU sharing is disabled".  The scheduler treats a pod as a sharing request only if it
+// carries a gpu-fraction or gpu-memory annotation (pod_info.updatePodAdditionalFields
+// [sharing-implies-annotation]).
+//@ define sharingRequested(pod *v1.Pod) bool = resources.hasFrac(pod) || resources.hasMem(pod)
 
-// C19: "Anything the scheduler would treat as a GPU-sharing request is rejected by admission ...
-// when GPU sharing is disabled".
-//@ define sharingRequested(pod *v1.Pod) bool = constants.GpuFraction in pod.Annotations || constants.GpuMemory in pod.Annotations
-
+// Admission verdict = sharing gate + the validator shared with the binder plugin (same function, so
+// admission and binder validate identically by construction).
 //@ func (*GPUSharing).Validate
 //@   props C19
+//@   ieee
 //@   requires p != nil && pod != nil
 //@   pure
 //@   ensures [sharing-disabled] !p.gpuSharingEnabled && sharingRequested(pod) ==> result != nil
+//@   ensures [accepts-iff] (result == nil) == ((p.gpuSharingEnabled || !sharingRequested(pod)) && !gpurequesthandler.badCombination(pod) && gpurequesthandler.valuesWellFormed(pod))
+//@   ensures [accepted-is-wellformed] result == nil ==> gpurequesthandler.valuesWellFormed(pod) && !gpurequesthandler.badCombination(pod)
+//@ end
+
+// C19 "admission's mutation is idempotent": Mutate itself is only claimed for its guards (the config map
+// name generator uses a random suffix and lives in gpusharingconfigmap, which has no contracts; the
+// idempotence of the env / envFrom / volume edits is proved on the functions of pkg/binder/common).
+// The call of common.GetFractionContainerRef is guarded: its precondition len(Containers) > 0 is proved here.
+// assumed library contract: the decimal representation of an int has 1..20 characters (needed for the
+// string slice bound in gpusharingconfigmap.generateConfigMapNamePrefix, inlined into Mutate)
+//@ func strconv.Itoa
+//@   trusted
+//@   note library function: len(strconv.Itoa(i)) is between 1 and 20 for every int (64-bit)
+//@   pure
+//@   ensures len(result) >= 1 && len(result) <= 20
+//@ end
+
+//@ func (*GPUSharing).Mutate
+//@   props C19
+//@   requires p != nil && pod != nil
+//@   modifies *
+//@   ensures [no-containers-noop] old(len(pod.Spec.Containers)) == 0 ==> result == nil
+//@   ensures [not-sharing-noop] !old(sharingRequested(pod)) ==> result == nil
 //@ end
